@@ -44,7 +44,24 @@ def export(P):
     again = _SHARED.extract_problem(P)
     if sexp.read(again) != sexp.read(fresh):
         raise ExporterStateful(f"a re-used ProblemExporter exports a different text than a fresh one:\n{again}\n---\n{fresh}")
+    # export to a file: the file at the path that was asked for holds that text, whatever the path looks like
+    # (str or Path, with the usual suffix, another one, two dots, none) and whatever it held before
+    global _PATH_ROT
+    _PATH_ROT += 1
+    from pathlib import Path
+    from ..bridge import scratch_dir
+    name = ["prob.pddl", "prob.txt", "p01.v2", "noext", "prob.pddl.bak"][_PATH_ROT % 5]
+    target = os.path.join(scratch_dir(), f"c09_{os.getpid()}_{name}")
+    with open(target, "wt") as f:
+        f.write("(define (problem stale) (:domain w) (:objects) (:init) (:goal (and)))")
+    _SHARED.export_problem(P, target if _PATH_ROT % 2 else Path(target))
+    written = open(target, encoding="utf-8").read()
+    if sexp.read(written) != sexp.read(fresh):
+        raise ExporterStateful(f"export_problem(problem, {target!r}) left {written[:200]!r} at that path; extract_problem gives\n{fresh}")
     return fresh
+
+
+_PATH_ROT = 0
 
 
 class ExporterStateful(Exception):
